@@ -46,13 +46,14 @@ class CurrentTonality(BaseElement):
     def init(self):
         tab = 'CDEFGAB'
         notes = [0, 2, 4, 5, 7, 9, 11]
-        note = self.text.replace(':', '').replace('#', '').replace('b', '').replace('-', '')
+        name = self.text.replace(':', '')
+        note, accidentals = name[0], name[1:]
         tone = notes[tab.index(note.upper())]
         mode = 'major' if note.upper() == note else 'minor'
 
-        tone += self.text.count('#')
-        tone -= self.text.count('b')
-        tone -= self.text.count('-')
+        tone += accidentals.count('#')
+        tone -= accidentals.count('b')
+        tone -= accidentals.count('-')
 
         self.key = tone
         self.mode = mode
